@@ -43,7 +43,19 @@ type c11Node struct {
 type c11Step struct {
 	F *string `json:"f,omitempty"` // .name  (hex)
 	K *string `json:"k,omitempty"` // ['key'] (hex)
-	I *int    `json:"i,omitempty"` // [3]
+	I *int64  `json:"i,omitempty"` // [3], [-1]: the integer the index denotes (any integer, also below 0)
+	W *c11Idx `json:"w,omitempty"` // how the index is written when it is not the literal I
+}
+
+// c11Idx is an index that is not written as a literal: a number taken from the page data (`xs[d.pos]`), the
+// length of a list of the page data (`xs[xs.length - 1]`), either with a constant added or subtracted
+// (`xs[n - 2]`), or a literal in another spelling. The generator computes the integer the expression
+// denotes (I, for the judge); here only its source text is built.
+type c11Idx struct {
+	Num []c11Step `json:"num,omitempty"` // path to a number of the page data
+	Len []c11Step `json:"len,omitempty"` // path to a list of the page data: its .length
+	Add int64     `json:"add,omitempty"` // constant added (subtracted when negative)
+	Lit string    `json:"lit,omitempty"` // "paren": (-1)  "sub": 0 - 1  "float": -1.0
 }
 
 type c11Path struct {
@@ -517,9 +529,47 @@ func c11JSString(s string) string {
 	return b.String()
 }
 
-func c11Source(p c11Path) (string, error) {
+func c11IdxSource(s c11Step) (string, error) {
+	w := s.W
+	var base string
+	var err error
+	switch {
+	case len(w.Num) > 0:
+		base, err = c11Steps(w.Num)
+	case len(w.Len) > 0:
+		base, err = c11Steps(w.Len)
+		base += ".length"
+	case s.I == nil:
+		return "", fmt.Errorf("written index without its value")
+	case w.Lit == "paren":
+		return "(" + strconv.FormatInt(*s.I, 10) + ")", nil
+	case w.Lit == "sub":
+		if *s.I < 0 {
+			return "0 - " + strconv.FormatInt(-*s.I, 10), nil
+		}
+		return strconv.FormatInt(*s.I+1, 10) + " - 1", nil
+	case w.Lit == "float":
+		return strconv.FormatInt(*s.I, 10) + ".0", nil
+	default:
+		return "", fmt.Errorf("empty index expression")
+	}
+	if err != nil {
+		return "", err
+	}
+	switch {
+	case w.Add > 0:
+		base += " + " + strconv.FormatInt(w.Add, 10)
+	case w.Add < 0:
+		base += " - " + strconv.FormatInt(-w.Add, 10)
+	}
+	return base, nil
+}
+
+func c11Source(p c11Path) (string, error) { return c11Steps(p.Steps) }
+
+func c11Steps(steps []c11Step) (string, error) {
 	var b strings.Builder
-	for i, s := range p.Steps {
+	for i, s := range steps {
 		switch {
 		case s.F != nil:
 			if i > 0 {
@@ -530,8 +580,14 @@ func c11Source(p c11Path) (string, error) {
 			return "", fmt.Errorf("a path starts with a name")
 		case s.K != nil:
 			b.WriteString("[" + c11JSString(unhx(*s.K)) + "]")
+		case s.W != nil:
+			src, err := c11IdxSource(s)
+			if err != nil {
+				return "", err
+			}
+			b.WriteString("[" + src + "]")
 		case s.I != nil:
-			b.WriteString("[" + strconv.Itoa(*s.I) + "]")
+			b.WriteString("[" + strconv.FormatInt(*s.I, 10) + "]")
 		default:
 			return "", fmt.Errorf("empty step")
 		}
